@@ -142,6 +142,22 @@ func (cl *Cloud) AddENIWithMAC(typ string, nV4, nV6 int, mac string) *daemon.ENI
 	return cl.toDaemon(e)
 }
 
+// RemoveENI detaches and deletes an interface behind terway's back.
+func (cl *Cloud) RemoveENI(id string) {
+	cl.mu.Lock()
+	defer cl.mu.Unlock()
+	if e := cl.ENIs[id]; e != nil {
+		for a := range e.V4 {
+			cl.Removed[a] = true
+		}
+		for a := range e.V6 {
+			cl.Removed[a] = true
+		}
+		delete(cl.ENIs, id)
+		cl.Deleted[id] = true
+	}
+}
+
 // SortedAddrs returns the keys of an address set in ascending order.
 func SortedAddrs(m map[netip.Addr]bool) []netip.Addr { return sortedAddrs(m) }
 
@@ -329,6 +345,11 @@ func (cl *Cloud) snapshotLocked() map[string]*ENI {
 func (cl *Cloud) Clone() *Cloud {
 	cl.mu.Lock()
 	defer cl.mu.Unlock()
+	return cl.CloneLocked()
+}
+
+// CloneLocked is Clone for callers that already hold the cloud lock (hooks).
+func (cl *Cloud) CloneLocked() *Cloud {
 	n := New()
 	n.ENIs = cl.snapshotLocked()
 	for k := range cl.Deleted {
